@@ -720,6 +720,12 @@ func genCase17(r *rng) *Case17 {
 				args = &T17{K: "tuple", A: []*T17{args}}
 			}
 			c.Y = args
+		} else if r.chance(0.35) {
+			// top (the universal type) absorbs on the LEFT only
+			c.Mode = "top"
+			c.X = &T17{K: "top"}
+			c.Y = g.ty(d, false, false)
+			c.Flip = r.chance(0.5)
 		} else {
 			c.Mode = "bottom"
 			c.X = g.ty(d, false, false)
@@ -969,7 +975,7 @@ func runCase17(c *Case17) case17Result {
 					fmt.Sprintf("applying the polymorphic function type %s to argument types %s: checker says %q, reference matcher + substitution says %q", f.canon(), c.Y.canon(), got, want))
 			}
 		}
-	case "unify", "match", "bottom":
+	case "unify", "match", "bottom", "top":
 		xs, ys := c.X, c.Y
 		if c.Flip {
 			xs, ys = c.Y, c.X
@@ -1030,6 +1036,12 @@ func runCase17(c *Case17) case17Result {
 				if sp.canon() != gr.canon() {
 					return fail("law", "c17:match-wrong-instantiation", fmt.Sprintf("Unify succeeded but s(pattern) = %s is not the matched type; subst %s", sp.canon(), o.summary()))
 				}
+			}
+		case "top":
+			want := !c.Flip
+			if o.OK != want {
+				return fail("law", fmt.Sprintf("c17:top-%v-want-%v", o.OK, want),
+					fmt.Sprintf("Unify(%s, %s) %s; the universal type may only absorb on the left", xs.canon(), ys.canon(), okWord(o.OK)))
 			}
 		case "bottom":
 			// bottom (the empty-container element type) unifies on the right only
